@@ -623,14 +623,20 @@ func (z *serializer) walk(v reflect.Value, depth int) {
 			return
 		}
 		z.walk(v.Elem(), depth+1)
-	case reflect.Func:
-		if v.IsNil() {
-			z.w("nilf")
-		} else {
-			z.w("f")
+	case reflect.Func, reflect.Chan, reflect.UnsafePointer:
+		// identity, numbered like a pointer: two different channels must not look alike (they may be the keys of a table)
+		if v.Kind() != reflect.UnsafePointer && v.IsNil() {
+			z.w("nil" + v.Kind().String()[:1])
+			return
 		}
-	case reflect.Chan, reflect.UnsafePointer:
-		z.w("?")
+		p := v.Pointer()
+		id, ok := z.ids[p]
+		if !ok {
+			id = len(z.ids) + 1
+			z.ids[p] = id
+		}
+		z.w(v.Kind().String()[:1] + "#")
+		z.buf = strconv.AppendInt(z.buf, int64(id), 10)
 	default:
 		z.w("?")
 	}
